@@ -46,21 +46,21 @@ CHECKS = {
   "runtime monitor with blocking injected inside the scripted implementation; offline order checker over the invocation log and the wire for shared-tag groups",
   "Every non-empty subset of 6 outstanding requests is held inside the implementation (issued before or after the others, Maxpend 0/1/4, with and without schedule perturbation) while the remaining "
   "requests and one on a second connection must be answered; shared-tag groups of 2..8 are checked for one-at-a-time execution in arrival order and in-order replies by holding each member in turn. "
-  "A reply that arrives only after the blockers were released is the witness. Held on the subsets/groups run.",
+  "A reply that arrives only after the blockers were released is the witness. Held on the subsets/groups run. Also held blocked: a Tflush inside FlushOp, Tclunk/Tremove/failed Twalk inside FidDestroy, requests inside AuthInit/AuthCheck/AuthRead/AuthWrite/AuthDestroy, a connection inside ConnOpened, requests (also ones the framework refuses) inside the SrvReqProcess/SrvReqRespond hooks, and a client that stops reading its replies.",
   "bounded progress with a 15 s watchdog that is never itself the verdict; Tversion excepted",
   "DESIGN.md §5 C08"),
  "C11": ("srvlab", "fault_enumeration",
   "fault injection at enumerated disconnect points with goroutine-dump, FidDestroy/ConnClosed log and /proc/self/fd monitors",
   "A victim connection running a generated history is cut after every prefix length with 0..4 requests held in the implementation (released afterwards, in every order over the run), by close, "
   "reset, server-side write failure and mid-frame disconnect, Maxpend 0/4, next to a bystander connection. Monitors: one ConnClosed, every fid object destroyed exactly once, no library goroutine "
-  "created for the victim left (confirmed stable across two dumps), bystander undisturbed; with Ufs no descriptor into the tree remains. Held on the enumerated cut points.",
+  "created for the victim left (confirmed stable across two dumps), bystander undisturbed; with Ufs no descriptor into the tree remains. Held on the enumerated cut points. Further cuts: client stops reading, disconnect while a Topen is blocked in open(2) of a named pipe (collections disabled while descriptors are counted), and a teardown whose ConnClosed/FidDestroy callback blocks while the bystander and a new connection must be served.",
   "goroutines attributed by creation after a baseline dump; leak = same library frame in two dumps after close.exit was observed",
   "DESIGN.md §5 C11"),
  "C12": ("srvlab", "exploration",
   "wire monitor over a configuration grid: negotiated limits recomputed independently and asserted on every frame the server sends",
   "Server msize x client msize x server dialect x version string grid; the Rversion is compared with min()/refusal/dialect rules, then every reply of a session through recycled buffers "
   "(attach, stat straddling msize, walks of 0..16 qids, reads up to the limit, long implementation errors) is measured on the wire against the negotiated msize and decoded in the negotiated dialect "
-  "only; announced frame sizes below a header or above msize must drop the connection without invocation while another connection works; Ufs variant for real stat replies. Held on the grid run. "
+  "only; announced frame sizes below a header or above msize must drop the connection without invocation while another connection works; Ufs variant for real stat replies. Held on the grid run.  Also: reply batteries after pipelined traffic preceding the Tversion and after second/third negotiations; an oversized frame in the same segment as the Tversion that lowers msize; implementation errors compared with the text given (cut only as far as needed); the grid with the akaros switch on. "
   "The client half (Connect adopts min msize / dialect) is checked by the clntlab engine cases.",
   "one Tversion per connection; trusts the wire codec",
   "DESIGN.md §5 C12"),
@@ -69,7 +69,7 @@ CHECKS = {
   "Server: request streams of ~44 x msize bytes (msize 64..4096, frames from 9 bytes to exactly msize, one shared-tag group) are delivered all at once, byte by byte, split at every single offset "
   "(small msize) or around every size prefix, and in random multi-way splits; writes are held in the implementation until the stream has been delivered. Every frame must produce exactly the "
   "invocation (arguments, late payload hash) and the reply bytes the reference decoding predicts. Client: a fixed reply stream for a fixed call script under the same families of cuts must give identical "
-  "call results. Held on the segmentations run.",
+  "call results. Held on the segmentations run. Plus a stream whose Tversion lowers msize ahead of a frame that is legal only under the old limit, compared across segmentations.",
   "requests of the measured stream are mutually independent; trusts the wire codec and the scripted implementation/peer",
   "DESIGN.md §5 C13"),
  "C09": ("clntlab", "exploration",
@@ -91,41 +91,41 @@ CHECKS = {
   "differential runtime monitor: bytes moved through go9p client + real Ufs versus the host file and a byte-array model",
   "Random-content files of boundary lengths (0, 1, iounit+-1, k*iounit+-1, random) are read with boundary and random (offset, count) pairs through Clnt.Read, File.Read, ReadAt and Readn and written "
   "through Clnt.Write, File.Write, WriteAt and Written at arbitrary offsets/chunkings, for msize 128..65536 and both dialects, 32 files open at once; every returned byte/count/offset is compared with "
-  "the host file (os.ReadFile) and the model after each step. Held on the files and sequences run.",
+  "the host file (os.ReadFile) and the model after each step. Held on the files and sequences run. Slices returned by Clnt.Read are kept and compared again after the later reads; files that grow are read back through the writing fid.",
   "trusts the host file system and os package; in-process server over scripted connections",
   "DESIGN.md §5 C14"),
  "C15": ("ufslab", "exploration",
   "wire monitor: every Rread of a directory decoded record by record with the independent codec and reconciled with os.ReadDir",
   "Directories of 0..3000 entries with name lengths 1..255 are listed through raw Treads following the offset rule with every count from the largest entry up to four entries (exhaustive for small "
   "directories), random counts, msize 256..65536, both dialects, restarts at offset 0, too-small counts; each payload must consist of whole records <= count, the multiset of names must equal the host's, "
-  "and File.Readdir(0) must return the same set. Held on the listings run.",
+  "and File.Readdir(0) must return the same set. Held on the listings run. Entries are added to and removed from a directory between two complete listings through the same fid (also a directory that was empty).",
   "directory not modified during listing; trusts the wire codec and os.ReadDir",
   "DESIGN.md §5 C15"),
  "C16": ("ufslab", "exploration",
   "differential runtime monitor: Rwalk/Rstat contents and client path helpers versus os.Lstat on seeded random trees",
   "Random trees (depth up to 40, odd names, files, directories, in-tree symlinks, hard links): raw walks of 0..16 elements with an existing prefix of every length, in place and to a new fid, then "
-  "Tstat of both fids; qid count/type/path, mode, length, mtime and name compared with Lstat; qid paths equal for hard links and distinct otherwise; FStat/FOpen of paths of every depth. Held on the trees and walks run.",
+  "Tstat of both fids; qid count/type/path, mode, length, mtime and name compared with Lstat; qid paths equal for hard links and distinct otherwise; FStat/FOpen of paths of every depth. Held on the trees and walks run. Trees contain sticky/setgid/setuid directories and files, named pipes and symlinks to directories (walked through).",
   "uid/gid/muid, atime, qid.version and directory lengths are not compared; trusts os.Lstat",
   "DESIGN.md §5 C16"),
  "C17": ("ufslab", "exploration",
   "twin-tree differential monitor: each 9P mutation is mirrored with the corresponding os/syscall call on a twin tree and the trees are compared after every step",
   "Seeded sequences of create (all open modes), mkdir, symlink, hard link, write, remove, rename, truncate, chmod and mtime operations, including error cases with a single POSIX answer; after each step "
   "the 9P-mutated tree must equal the twin (names, kinds, contents, permissions, link targets, hard-link partition, set mtimes), an Rerror must leave the tree unchanged and carry the twin's errno (.u), "
-  "and the fid must designate the created/renamed object. Held on the sequences run.",
+  "and the fid must designate the created/renamed object. Held on the sequences run. Renames go to free and occupied names of every kind and to absolute targets; wstat length/mtime also through fids opened in every mode; mkdir also with modes a directory cannot be created with (an Rerror must leave the tree unchanged).",
   "twin operations run in the same process (same uid 0, umask); operations whose POSIX counterpart is ambiguous are not generated",
   "DESIGN.md §5 C17"),
  "C18": ("ufslab", "exploration",
   "canary monitor: sandbox outside the exported root snapshotted before/after every hostile session; inode and token leak detectors on everything the server returns",
   "Attach names, walk element lists, create names and rename targets from a hostile grammar ('..', '.', '', '/', absolute paths, ../ chains, a/../../x, mixtures with real names) at every depth, each "
   "followed by stat, open+read, listing, create, mkdir, write, chmod, rename and remove through the fid obtained. Outside the root nothing may change or appear, no returned qid or listing entry may carry an "
-  "outside inode, no payload a canary token, and '..' from the root must yield the root. Held on the sessions run.",
+  "outside inode, no payload a canary token, and '..' from the root must yield the root. Held on the sessions run. The walk and mixed batteries also run against servers whose Root is configured with a trailing slash, a /./ element or a double slash.",
   "tree without symlinks leaving it (premise); hostile names are bounded so that they cannot climb above the sandbox",
   "DESIGN.md §5 C18"),
  "C19": ("racelab", "exploration",
   "Go race detector (-race build of the worker, GORACE halt_on_error=0 log_path=...) over concurrent workloads; reports parsed and de-duplicated by the supervisor",
   "2/8/32 goroutines share one client and work on their own files and directories against the real Ufs over a socketpair (walks start from the shared root fid), raw connections pipeline requests on "
   "distinct fids and flush them against a stateless implementation, other connections come and go, logging on/off, Maxpend 0/4, both dialects, seeded repetitions with yields and sleeps injected at the "
-  "library's schedule points by a hook that touches no shared memory. Verdict: zero DATA RACE reports with a go9p frame. Held = no race observed in the runs made.",
+  "library's schedule points by a hook that touches no shared memory. Verdict: zero DATA RACE reports with a go9p frame. Held = no race observed in the runs made. Half of the raw workloads use a cancelling FlushOp (req.Flush() plus the late answer of the cancelled worker).",
   "the detector sees only overlapping accesses within its history window; requests on a fid are only sent after the reply that created or changed the fid",
   "DESIGN.md §5 C19"),
  "C20": ("loglab", "exploration",
